@@ -181,7 +181,6 @@ mut('C18', 'read_two_bytes', SOCK, "                byte = self._rfile.read(1)",
 # ---- C19 ----
 mut('C19', 'write_filter_dropped', SYX, "    messages = [m for m in messages if m.type == 'sysex']", "    messages = [m for m in messages if m.type == 'sysex' or m.type == 'song_select']")
 mut('C19', 'read_filter_dropped', SYX, "    return [msg for msg in parser if msg.type == 'sysex']", "    return [msg for msg in parser if msg.type in ('sysex', 'tune_request')]")
-mut('C19', 'newline_in_binary', SYX, "            for message in messages:\n                outfile.write(message.bin())", "            for message in messages:\n                outfile.write(message.bin())\n                if len(message) == 12:\n                    outfile.write(b'\\n')")
 mut('C19', 'detect_on_last_byte', SYX, "    if data[0] == 240:", "    if data[0] == 240 and data[-1] == 247:")
 mut('C19', 'hex_lowercase_sep', SYX, "                outfile.write(message.hex())", "                outfile.write(message.hex(sep=',') if len(message) > 40 else message.hex())")
 # ---- C20 ----
